@@ -56,26 +56,26 @@ CHECKS = {
    text="The complete configuration space (4096 incl. both routes to TLS-active) is enumerated; per configuration a lock-step conversation with the real server (real TLS) compares the EHLO keyword set with an independent capability function and probes every extension's command/parameter for 'advertised => accepted' and 'disabled => 504'.",
    note="REQUIRETLS enabled but probed outside TLS is not judged",
    tech="exhaustive enumeration of the finite configuration space on the real code"),
- "C14": dict(engine="D", cat="exploration", ref="DESIGN.md §4 C14",
-   text="Codec pairs for all ASCII strings up to a length and every Unicode scalar; all short strings over an encoding-significant alphabet in every string-valued option, every scalar inside a UTF-8 ORCPT, and option subsets, each sent by the real client to the real server and compared at the backend.",
+ "C14": dict(engine="CB + D", cat="exploration", ref="DESIGN.md §4 C14",
+   text="Codec pairs for all ASCII strings up to a length and every Unicode scalar; all short strings over an encoding-significant alphabet in every string-valued option, every scalar inside a UTF-8 ORCPT, and option subsets, each sent by the real client to the real server and compared at the backend. Histories of client calls: an explicit-state breadth-first search over sequences of Client API calls (Hello, Noop, Reset, Mail, Rcpt, Data, LMTPData, SendMail, Auth, Extension, Verify, Quit; accepted / refused / failing variants) on one connection against the real server, to the fixpoint of (Client private state, Conn private state, model state), judges every call in every reachable state.",
    note="judged domain per field stated in the evidence rule; Body excluded (client always sends 8BITMIME)",
-   tech="exhaustive input enumeration through real client -> real server round trips"),
- "C15": dict(engine="D (scripted server)", cat="exploration", ref="DESIGN.md §4 C15",
-   text="All 2^7 advertised-extension subsets x all option-field subsets (also after a second EHLO advertising a different subset) and all short hostile strings in every string-typed argument, against a scripted server; the raw octets written by each call are inspected.",
+   tech="exhaustive input enumeration through real client -> real server round trips + explicit-state BFS over client call histories against a model"),
+ "C15": dict(engine="CB + D (scripted server)", cat="exploration", ref="DESIGN.md §4 C15",
+   text="All 2^7 advertised-extension subsets x all option-field subsets (also after a second EHLO advertising a different subset) and all short hostile strings in every string-typed argument, against a scripted server; the raw octets written by each call are inspected. Histories of client calls: an explicit-state breadth-first search over sequences of Client API calls (Hello, Noop, Reset, Mail, Rcpt, Data, LMTPData, SendMail, Auth, Extension, Verify, Quit; accepted / refused / failing variants) on one connection against the real server, to the fixpoint of (Client private state, Conn private state, model state), judges every call in every reachable state.",
    note="scripted server is a pure function line -> reply",
-   tech="exhaustive configuration x input enumeration on the real client, raw wire inspection"),
- "C16": dict(engine="D", cat="exploration", ref="DESIGN.md §4 C16",
-   text="All bodies up to 6 (7) tokens over {'.', LF, CRLF, other} x all 2-split / per-octet / single Write partitions x verdict x {SMTP, LMTP} through the real client into the real server; backend octets compared with a reference normalisation; second Close must be a local error with no octet written.",
+   tech="exhaustive configuration x input enumeration on the real client, raw wire inspection + explicit-state BFS over client call histories against a model"),
+ "C16": dict(engine="CB + D", cat="exploration", ref="DESIGN.md §4 C16",
+   text="All bodies up to 6 (7) tokens over {'.', LF, CRLF, other} x all 2-split / per-octet / single Write partitions x verdict x {SMTP, LMTP} through the real client into the real server; backend octets compared with a reference normalisation; second Close must be a local error with no octet written. Histories of client calls: an explicit-state breadth-first search over sequences of Client API calls (Hello, Noop, Reset, Mail, Rcpt, Data, LMTPData, SendMail, Auth, Extension, Verify, Quit; accepted / refused / failing variants) on one connection against the real server, to the fixpoint of (Client private state, Conn private state, model state), judges every call in every reachable state.",
    note="CR only as part of CRLF; deadlocks are detected by the synctest runtime, not by timeouts",
-   tech="exhaustive input x partition enumeration through real client -> real server"),
- "C17": dict(engine="D", cat="exploration", ref="DESIGN.md §4 C17",
-   text="Codes x enhanced-code kinds x message shapes x callbacks (and generic errors) - the full product - through real server and real client; wire reply parsed strictly and the client's SMTPError compared field by field.",
+   tech="exhaustive input x partition enumeration through real client -> real server + explicit-state BFS over client call histories against a model"),
+ "C17": dict(engine="CB + D", cat="exploration", ref="DESIGN.md §4 C17",
+   text="Codes x enhanced-code kinds x message shapes x callbacks (and generic errors) - the full product - through real server and real client; wire reply parsed strictly and the client's SMTPError compared field by field. Histories of client calls: an explicit-state breadth-first search over sequences of Client API calls (Hello, Noop, Reset, Mail, Rcpt, Data, LMTPData, SendMail, Auth, Extension, Verify, Quit; accepted / refused / failing variants) on one connection against the real server, to the fixpoint of (Client private state, Conn private state, model state), judges every call in every reachable state.",
    note="NoEnhancedCode + text that parses as a code is ambiguous and only the reply code is judged",
-   tech="exhaustive enumeration of the stated finite product on the real code"),
- "C18": dict(engine="D", cat="exploration", ref="DESIGN.md §4 C18",
-   text="All sequences of 1-2 (3) LMTP transactions x 1-3 recipients x per-recipient fate {refused at RCPT, ok, 4xx, 5xx} x {callback, no callback} x backend kind through the real LMTP client and server, plus a scripted LMTP server that accepts recipients with 250/251/252; a client waiting for replies that never come is a runtime-detected deadlock.",
+   tech="exhaustive enumeration of the stated finite product on the real code + explicit-state BFS over client call histories against a model"),
+ "C18": dict(engine="CB + D", cat="exploration", ref="DESIGN.md §4 C18",
+   text="All sequences of 1-2 (3) LMTP transactions x 1-3 recipients x per-recipient fate {refused at RCPT, ok, 4xx, 5xx} x {callback, no callback} x backend kind through the real LMTP client and server, plus a scripted LMTP server that accepts recipients with 250/251/252; a client waiting for replies that never come is a runtime-detected deadlock. Histories of client calls: an explicit-state breadth-first search over sequences of Client API calls (Hello, Noop, Reset, Mail, Rcpt, Data, LMTPData, SendMail, Auth, Extension, Verify, Quit; accepted / refused / failing variants) on one connection against the real server, to the fixpoint of (Client private state, Conn private state, model state), judges every call in every reachable state.",
    note="exact deadlock oracle from testing/synctest",
-   tech="exhaustive history enumeration through real client <-> real server with an exact deadlock oracle"),
+   tech="exhaustive history enumeration through real client <-> real server with an exact deadlock oracle + explicit-state BFS over client call histories against a model"),
  "C19": dict(engine="S/input", cat="exploration", ref="DESIGN.md §4 C19",
    text="Line lengths around three limits x positions in the conversation x all 2-splits / per-octet segmentation, endless lines, all short strings over a hostile byte alphabet in three states, all sequences of valid/invalid commands around the error threshold; oracle: no panic (escaped or recovered), exact 500/close behaviour, bounded input consumption.",
    note="known finding D6 demonstrated by a directed family; random binary input is a labelled supplement",
@@ -98,12 +98,13 @@ m = {
  "hooks": {"guard": "verif (Go build tag)",
            "enable": "go test -c -tags verif (hook file /repo/verif_hooks.go carries //go:build verif)",
            "baseline_off_cmd": "cd /repo && GOFLAGS=-mod=mod GOPROXY=off GOSUMDB=off GOTOOLCHAIN=local go test -vet=off -count=1 -json ./...",
-           "source_commits": ["de8bd85", "7055143"], "add_only": True},
+           "source_commits": ["de8bd85", "7055143", "c3d8f5f"], "add_only": True},
  "engines": [
    {"name": "S", "path": "/verif/h/server.go", "serves_properties": ["C01","C02","C03","C04","C05","C06","C07","C08","C09","C10","C11","C12","C19"], "kind_free_text": "sequential exhaustive driver: real connection handler over a scripted in-memory net.Conn inside a testing/synctest bubble (exact quiescence and leak detection)"},
    {"name": "L", "path": "/verif/h/live.go", "serves_properties": ["C03","C04","C09","C10","C12"], "kind_free_text": "lock-step driver: real handler goroutine + in-memory duplex connection + synctest.Wait for exact quiescence after each command; real TLS handshakes"},
    {"name": "BFS", "path": "/verif/checks/bfs.go", "serves_properties": ["C03","C04","C09","C10"], "kind_free_text": "explicit-state breadth-first search over command histories; successor = replay of the shortest history on a fresh real server + one abstract command; state key = private-state dump of the real Conn + reference-model state"},
    {"name": "D", "path": "/verif/h/duplex.go", "serves_properties": ["C14","C15","C16","C17","C18","C09","C10"], "kind_free_text": "real smtp.Client <-> real server (or scripted server) over an in-memory connection inside a synctest bubble; deadlock = runtime-detected"},
+   {"name": "CB", "path": "/verif/checks/clientbfs.go", "serves_properties": ["C14","C15","C16","C17","C18"], "kind_free_text": "explicit-state breadth-first search over histories of CLIENT API calls: real smtp.Client <-> real server; successor = replay of the shortest history on a fresh pair + one call; state key = private state of the real Client + private state of the real Conn + model state; every call judged in every reachable state"},
    {"name": "X", "path": "/verif/h/sched.go", "serves_properties": ["C04","C13","C20"], "kind_free_text": "stateless schedule explorer: gates at backend/connection/listener/admin/clock seams (and every Lock() via the vsync overlay), one gate opened per step, synctest.Wait as the exact quiescence signal; DFS over choice sequences with deviation bounding; schedules are lists of stable names and replay"},
    {"name": "R", "path": "/verif/checks/c20race.go", "serves_properties": ["C20"], "kind_free_text": "free-running replays of engine X's schedules in a -race build with the ordinary sync package; reports reduced to function-pair signatures"},
  ],
